@@ -452,7 +452,7 @@ fn generate_taggeditem_parser(
                         BlockContent::Comment(token, line_offset) => {
                             a2lcomment.push(Comment {
                                 comment: parser.get_token_text(token).to_string(),
-                                is_included: context.fileid != 0,
+                                is_included: token.fileid != 0,
                                 line: context.line,
                                 uid: parser.get_next_id(),
                                 start_offset: line_offset,
